@@ -172,14 +172,14 @@ theorem length_of_abs (n : Name) (ha : isAbs n = true) : n.length = n.dropLast.l
   simp
 
 /-- The signing input of the model equals RFC 4034 §3.1.8.1 for absolute signer and owner and an accepted
-label count, whichever variant of the signer expression is used. -/
-theorem rrsigData_eq_rfc (v : SignerVariant) (t : CanonTable) (sig : RRSig) (origin : Option Name) (rrname : Name)
+label count. -/
+theorem rrsigData_eq_rfc (t : CanonTable) (sig : RRSig) (origin : Option Name) (rrname : Name)
     (rdtype rdclass : Nat) (rdatas : List Rdata) (ds : List Bytes)
     (hs : isAbs sig.signer = true) (hr : isAbs rrname = true)
     (hl : sig.labels ≤ Rfc.labelCount rrname)
     (hw : rrname.head? = some wildLabel → sig.labels = Rfc.labelCount rrname)
     (hd : mapExcept (fun rd => toDigestable t rdclass rdtype rd origin) rdatas = .ok ds) :
-    rrsigData v t sig origin rrname rdtype rdclass rdatas =
+    rrsigData t sig origin rrname rdtype rdclass rdatas =
       .ok (Rfc.sigData sig sig.signer rrname rdtype rdclass (insSort bytesLe ds)) := by
   have hlen := length_of_abs rrname hr
   have hcount : Rfc.labelCount rrname ≤ rrname.dropLast.length := by
@@ -214,17 +214,16 @@ theorem rrsigData_eq_rfc (v : SignerVariant) (t : CanonTable) (sig : RRSig) (ori
     rw [hf]
     simp [Rfc.sigData, rrsigHeader, List.append_assoc]
   unfold rrsigData
-  cases v <;>
-    simp only [derelativizeD, hs, hr, if_true, nameWireFile, nameDigestable, nameWireNoFile,
+  simp only [derelativizeD, hs, hr, if_true, nameWireFile, nameDigestable, nameWireNoFile,
       hc1, hc2, if_false, hown, habs, hd, hfin]
 
 /-- outside the accepted label counts the code raises ValidationFailure -/
-theorem rrsigData_rejects (v : SignerVariant) (t : CanonTable) (sig : RRSig) (origin : Option Name) (rrname : Name)
+theorem rrsigData_rejects (t : CanonTable) (sig : RRSig) (origin : Option Name) (rrname : Name)
     (rdtype rdclass : Nat) (rdatas : List Rdata)
     (hs : isAbs sig.signer = true) (hr : isAbs rrname = true)
     (hbad : sig.labels > Rfc.labelCount rrname ∨
             (rrname.head? = some wildLabel ∧ sig.labels ≠ Rfc.labelCount rrname)) :
-    rrsigData v t sig origin rrname rdtype rdclass rdatas = .error .validation := by
+    rrsigData t sig origin rrname rdtype rdclass rdatas = .error .validation := by
   have hlen := length_of_abs rrname hr
   unfold rrsigData
   by_cases hwild : rrname.head? = some wildLabel
@@ -245,7 +244,7 @@ theorem rrsigData_rejects (v : SignerVariant) (t : CanonTable) (sig : RRSig) (or
     have hcnt : Rfc.labelCount rrname = rrname.dropLast.length - 1 := by
       unfold Rfc.labelCount; simp only [wildLabel] at hwild; simp [hwild]
     have : (sig.labels : Int) ≠ (rrname.length : Int) - 2 := by omega
-    cases v <;> simp [derelativizeD, hs, hr, nameWireFile, nameDigestable, nameWireNoFile, hwild, this]
+    simp [derelativizeD, hs, hr, nameWireFile, nameDigestable, nameWireNoFile, hwild, this]
   · have hgt : sig.labels > Rfc.labelCount rrname := by
       rcases hbad with h | h
       · exact h
@@ -253,7 +252,7 @@ theorem rrsigData_rejects (v : SignerVariant) (t : CanonTable) (sig : RRSig) (or
     have hcnt : Rfc.labelCount rrname = rrname.dropLast.length := by
       unfold Rfc.labelCount; simp only [wildLabel] at hwild; simp [hwild]
     have h2 : (rrname.length : Int) - 1 < (sig.labels : Int) := by omega
-    cases v <;> simp [derelativizeD, hs, hr, nameWireFile, nameDigestable, nameWireNoFile, hwild, h2]
+    simp [derelativizeD, hs, hr, nameWireFile, nameDigestable, nameWireNoFile, hwild, h2]
 
 end Dnssec
 end Model
